@@ -407,6 +407,10 @@ class Walker:
                             p.env[t.id] = vsrc      # a keyword dictionary under construction: tracked as a display
                         else:
                             p.env.pop(t.id, None)
+                            if t.id in getattr(self, "entry_params", ()):
+                                # a PARAMETER of the walked method is rebound to a value the walker does not track (`reward =
+                                # min(reward, ..)`): what the name holds from here on is not the caller's argument any more
+                                p.env[t.id] = "REBOUND(%s)" % norm_src(expanded)
                     elif isinstance(t, ast.Subscript) and isinstance(t.value, ast.Name) and p.env.get(t.value.id, "").startswith("{") and \
                             isinstance(t.slice, ast.Constant) and isinstance(t.slice.value, str) and self.aliasable(s.value):
                         # d["key"] = v on a tracked keyword dictionary
@@ -671,5 +675,6 @@ def credit_paths(model, cls):
         raise AnalysisError("%s.receive_reward not found" % cls)
     w = Walker(model, cls)
     params = [a.arg for a in fn.args.args]
+    w.entry_params = tuple(params[1:])
     paths = w.run(fn)
     return fn, params, paths, w.functions
